@@ -1,11 +1,13 @@
 (* C10: the real AsyncDispatcher under a controlled scheduler (every suspension point is a Future the harness resolves in an
    enumerated order) against Model/Async.v, with each element's segments and response taken from a run of that element ALONE. *)
 From Coq Require Import ZArith List String Ascii Bool Arith.
+Open Scope string_scope.
 From PJ Require Import Base.Json Base.Res Model.Async.
 Import ListNotations.
 
 Record case := {
   elems : list (list (list json) * option json);     (* per element: its segments and its response when dispatched alone *)
+  registered : list bool;                             (* per element: its method is a registered one its arguments bind to (so its body must run) *)
   sequential : bool;                                  (* concurrent_batch = False *)
   choices : list nat;                                 (* the order in which the harness resolved the pending suspension points *)
   obs_doc : option json;                              (* the response array (None: nothing returned) *)
@@ -28,8 +30,12 @@ Definition mismatch (c : case) : bool :=
 (* the property, from the alone-runs only *)
 Fixpoint sorted_idx (l : list nat) : bool :=
   match l with a :: ((b :: _) as r) => Nat.leb a b && sorted_idx r | _ => true end.
+Definition is_call_event (e : json) : bool := match e with JArr (JStr "call" :: _) => true | _ => false end.
 Definition ok (c : case) : bool :=
   let alone := cat_some (map snd (elems c)) in
+  (* every (registered) method has run exactly once, no other has run *)
+  forallb (fun kb : nat * bool => Nat.eqb (List.length (filter is_call_event (proj (fst kb) (obs_trace c)))) (if snd kb then 1 else 0))
+          (combine (seq 0 (List.length (registered c))) (registered c)) &&
   option_eqb json_equiv (obs_doc c) (match alone with [] => None | l => Some (JArr l) end)         (* request order, own id/result *)
   && forallb (fun ie => list_eqb json_equiv (proj (fst ie) (obs_trace c)) (List.concat (fst (snd ie))))
              (combine (seq 0 (List.length (elems c))) (elems c))                                    (* own trace, exactly once *)
